@@ -44,12 +44,35 @@ func TempDir() string {
 
 // Run executes bin with args; stdin may be nil (then /dev/null).
 func Run(dir, bin string, args []string, stdin *string) Out {
+	return RunWith(dir, bin, args, stdin, "pipe")
+}
+
+// RunWith is Run with a choice of what kind of file descriptor carries the standard input:
+// "pipe", "file" (a regular file opened for reading, as with `< file`) or "null" (/dev/null, a
+// character device; only meaningful for empty input).
+func RunWith(dir, bin string, args []string, stdin *string, how string) Out {
 	cmd := exec.Command(bin, args...)
 	cmd.Dir = dir
 	var so, se bytes.Buffer
 	cmd.Stdout, cmd.Stderr = &so, &se
 	if stdin != nil {
-		cmd.Stdin = bytes.NewReader([]byte(*stdin))
+		switch {
+		case how == "null" && *stdin == "":
+			// leave cmd.Stdin nil: os/exec connects /dev/null
+		case how == "file":
+			p := filepath.Join(dir, fmt.Sprintf("stdin-%d", counter.Add(1)))
+			if err := os.WriteFile(p, []byte(*stdin), 0644); err != nil {
+				panic(err)
+			}
+			f, err := os.Open(p)
+			if err != nil {
+				panic(err)
+			}
+			defer f.Close()
+			cmd.Stdin = f
+		default:
+			cmd.Stdin = bytes.NewReader([]byte(*stdin))
+		}
 	}
 	if err := cmd.Start(); err != nil {
 		return Out{Exit: -1, Stderr: "start: " + err.Error()}
